@@ -197,6 +197,18 @@ class Check:
         self.analysed['call_sites'] += calls
 
 
+def known_matches(entry, ob):
+    """A listed finding covers a failing obligation only if *every* problem the obligation reports (its detail, split at
+    '; ') carries one of the entry's signatures - the part of the message that identifies what fails (the rounded
+    operand, the wrong outcome, ...), not how the code spells it.  Any other problem under the same obligation makes it
+    a new violation."""
+    sigs = entry.get('signatures')
+    if not sigs:
+        return 'detail' not in entry or entry['detail'] == (ob['detail'] or '')
+    items = [x for x in (ob['detail'] or '').split('; ') if x.strip()]
+    return bool(items) and all(any(sg in it for sg in sigs) for it in items)
+
+
 def unlisted(chk):
     """obligations of the run that failed and are not listed known findings (same matching as `finish`)"""
     known = load_known()
@@ -206,7 +218,7 @@ def unlisted(chk):
         if o['status'] == 'ok':
             continue
         k = known_keys.get(o['key'])
-        if k is not None and ('detail' not in k or k['detail'] == (o['detail'] or '')):
+        if k is not None and known_matches(k, o):
             continue
         out.append(o)
     return out
@@ -224,7 +236,7 @@ def finish(chk, level='proof', explanation=None, assumptions=None):
         k = known_keys.get(o['key'])
         # a known finding is identified by the obligation AND by what exactly fails there: any other failure under the
         # same obligation (a different detail) is a new violation
-        if k is not None and ('detail' not in k or k['detail'] == (o['detail'] or '')):
+        if k is not None and known_matches(k, o):
             known_hit.append(o)
         else:
             new_viol.append(o)
